@@ -218,38 +218,15 @@ def key_worker(_):
     return {"rows": rows}
 
 
-def _check_main(ctx, rep: Report):
-    # TRUTH / EMPTY
-    rep.rules["C06.TRUTH"] = "truthiness tests whose operand is an element/key/index (argument, read from the container, or index() result); non-trivial = a recorded truthiness test on the element-helper paths"
-    elem_tasks = [t for t in provrun.helper_tasks(ctx, families=False) if ctx.helpers[t[0]].family in FAMS]
-    total_tests = 0
-    for r in pmap(truth_worker, elem_tasks):
-        rep.functions |= set(r["functions"])
-        rep.evaluations += r["paths"]
-        total_tests += r["ntests"]
-        hid = r["task"][0]
-        rep.oblige("C06.TRUTH", f"{hid}[{r['task'][1]}]", not r["found"], f"{r['ntests']} truthiness tests seen")
-        for kind, tok, site in r["found"]:
-            fn, stmt = ctx.p.stmt_at(site)
-            rule = "C06.EMPTY" if "EMPTY" in kind else "C06.TRUTH"
-            what = (f"{fn}: `{stmt}` tests the truthiness of the container `{tok}`: an empty list/dict/set is treated like a missing one"
-                    if rule == "C06.EMPTY" else
-                    f"{fn}: `{stmt}` tests the truthiness of `{tok}` ({kind}): falsy elements such as 0 or '' take the wrong branch")
-            rep.violate(Violation(rule, f"{rule}|{fn}|{stmt}", what, site, fn, [], hid))
-            rep.nontrivial.add((rule, fn, stmt))
-    if total_tests < 20:
-        raise AnalysisError(f"C06.TRUTH: only {total_tests} truthiness tests observed")
-    rep.extra["truthiness_tests_observed"] = total_tests
-
-    # IDX
-    rep.rules["C06.IDX"] = "decision tables of the inserters and by_index tri-state"
+def inserter_tables_rule(ctx, rep, rule="C06.IDX"):
+    rep.rules[rule] = "decision tables of the inserters and by_index tri-state"
     for r in pmap(idx_worker, list(FAMS)):
         rep.functions |= set(r["functions"])
         rep.evaluations += len(r["rows"])
         bad = []
         fam = r["fam"]
         if not r["rows"]:
-            raise AnalysisError(f"C06.IDX: no normal path in {fam} _inserter")
+            raise AnalysisError(f"{rule}: no normal path in {fam} _inserter")
         for row in r["rows"]:
             d, ws = row["dec"], row["writes"]
             hows = [w[0] for w in ws]
@@ -292,12 +269,39 @@ def _check_main(ctx, rep: Report):
                 for w in disc:
                     if w[2] != "index":
                         bad.append(f"discards `{w[2]}` instead of the addressed element")
-        rep.oblige("C06.IDX", f"{MUTATOR_OF[fam]}._inserter", not bad, "; ".join(sorted(set(bad))[:2]) or f"{len(r['rows'])} rows")
+        rep.oblige(rule, f"{MUTATOR_OF[fam]}._inserter", not bad, "; ".join(sorted(set(bad))[:2]) or f"{len(r['rows'])} rows")
         rep.sample({"entry": f"{MUTATOR_OF[fam]}._inserter", "rows": r["rows"][:4]})
         for row in r["rows"]:
             rep.nontrivial.add((fam, tuple(sorted(row["dec"].items())), tuple(row["writes"])))
         for b in sorted(set(bad)):
-            rep.violate(Violation("C06.IDX", f"C06.IDX|{fam}|{b[:70]}", f"{MUTATOR_OF[fam]}._inserter: {b}", "", f"{MUTATOR_OF[fam]}._inserter"))
+            rep.violate(Violation(rule, f"{rule}|{fam}|{b[:70]}", f"{MUTATOR_OF[fam]}._inserter: {b}", "", f"{MUTATOR_OF[fam]}._inserter"))
+
+
+def _check_main(ctx, rep: Report):
+    # TRUTH / EMPTY
+    rep.rules["C06.TRUTH"] = "truthiness tests whose operand is an element/key/index (argument, read from the container, or index() result); non-trivial = a recorded truthiness test on the element-helper paths"
+    elem_tasks = [t for t in provrun.helper_tasks(ctx, families=False) if ctx.helpers[t[0]].family in FAMS]
+    total_tests = 0
+    for r in pmap(truth_worker, elem_tasks):
+        rep.functions |= set(r["functions"])
+        rep.evaluations += r["paths"]
+        total_tests += r["ntests"]
+        hid = r["task"][0]
+        rep.oblige("C06.TRUTH", f"{hid}[{r['task'][1]}]", not r["found"], f"{r['ntests']} truthiness tests seen")
+        for kind, tok, site in r["found"]:
+            fn, stmt = ctx.p.stmt_at(site)
+            rule = "C06.EMPTY" if "EMPTY" in kind else "C06.TRUTH"
+            what = (f"{fn}: `{stmt}` tests the truthiness of the container `{tok}`: an empty list/dict/set is treated like a missing one"
+                    if rule == "C06.EMPTY" else
+                    f"{fn}: `{stmt}` tests the truthiness of `{tok}` ({kind}): falsy elements such as 0 or '' take the wrong branch")
+            rep.violate(Violation(rule, f"{rule}|{fn}|{stmt}", what, site, fn, [], hid))
+            rep.nontrivial.add((rule, fn, stmt))
+    if total_tests < 20:
+        raise AnalysisError(f"C06.TRUTH: only {total_tests} truthiness tests observed")
+    rep.extra["truthiness_tests_observed"] = total_tests
+
+    # IDX
+    inserter_tables_rule(ctx, rep)
     modes = {r["mode"]: r for r in pmap(byindex_worker, ["default", "true", "false"])}
     bad = []
     if not modes["default"]["checks"]:
